@@ -154,15 +154,17 @@ def check_call(spec, pipe_for, out, kw, listed, orders, entries=ENTRIES):  # noq
             if r not in r2.used_kw:
                 surplus.append((r, "root-not-needed"))
     for name, why in surplus:
-        try:
-            _quiet(p0, out_t, **{**kw, name: "<s>"})
-        except Exception:  # noqa: BLE001, S110
-            pass
-        else:
-            # a bound parameter swallows a same-named keyword by design; not counted as surplus
-            if any(name in f.get("bound", {}) for f in spec["funcs"]):
-                continue
-            res.append(({"kind": "surplus-accepted", "why": why, **base}, f"({out_t!r}, {kw}) + surplus {name} ({why}) was accepted"))
+        # a bound parameter swallows a same-named keyword by design; not counted as surplus
+        if any(name in f.get("bound", {}) for f in spec["funcs"]):
+            continue
+        for entry in ("call", "run", "full", "func"):  # every entry point that takes keywords
+            try:
+                _quiet(_invoke, p0, entry, out_t, {**kw, name: "<s>"})
+            except Exception:  # noqa: BLE001, S110
+                pass
+            else:
+                res.append(({"kind": "surplus-accepted", "why": why, **base, **({"entry": entry} if entry != "call" else {})},
+                            f"{entry}: ({out_t!r}, {kw}) + surplus {name} ({why}) was accepted"))
     return res
 
 
